@@ -42,7 +42,9 @@ EXTRA = {"C01-2": ["C07"], "C04-1": ["C07"], "C06-2": ["C07"], "C03-b1": ["C07"]
          "C10-y1": ["C05", "C13"], "C10-y2": ["C04"], "C11-y2": ["C13", "C08"], "C12-y1": ["C08", "C16"], "C13-y1": ["C05", "C08"],
          "C13-y2": ["C03"], "C14-y1": ["C15", "C20"], "C14-y2": ["C15"], "C17-y1": ["C06", "C19"], "C17-y2": ["C10", "C05"],
          "C18-y2": ["C04", "C05"], "C03-y1": ["C05", "C13"], "C03-y2": ["C13"], "C06-y1": ["C19", "C17"], "C06-y2": ["C19", "C05", "C15"],
-         "C09-y1": ["C10"], "C09-y2": ["C13", "C12"]}
+         "C09-y1": ["C10"], "C09-y2": ["C13", "C12"], "C05-y1": ["C03", "C04"], "C05-y2": ["C10"], "C07-y1": ["C16", "C08"],
+         "C07-y2": ["C16", "C03"], "C15-y1": ["C05"], "C15-y2": ["C11", "C18"], "C19-y1": ["C06", "C02"], "C19-y2": ["C06"],
+         "C20-y1": ["C17"], "C20-y2": []}
 def run_one(name, checks):
     d = os.path.join(SEEDED, name)
     wt = tempfile.mkdtemp(prefix="hsv-mx-", dir="/tmp"); os.rmdir(wt)
